@@ -74,8 +74,13 @@ def programs(draw):
             ops.append(["ev", "OB.", 12])
         ops.append(["flush"])
         threads.append(ops)
+    # one program in ten initialises a thread again (same tid) after ovni_thread_free():
+    # the library is expected to refuse it; if a tree accepts it, the crash points of
+    # the second life are enumerated like any others
+    reinit = draw(st.integers(0, 9)) == 0
     return {"threads": threads, "tmpdir": draw(st.sampled_from([True, True, False])), "readdir": draw(st.integers(0, 1)),
-            "interleave": draw(st.integers(0, 1000)), "short": draw(st.sampled_from([None, None, "half"]))}
+            "interleave": draw(st.integers(0, 1000)), "short": draw(st.sampled_from([None, None, "half"])),
+            "reinit": reinit}
 
 
 def to_script(case):
@@ -114,6 +119,14 @@ def to_script(case):
                     lines.append(("T%d ev %s now %s" % (t, rt.hx(op[1]), pl)).rstrip())
     for t in range(nth):
         lines.append("T%d free" % t)
+    if case.get("reinit"):
+        lines.append("T0 init 70")
+        lines.append("T0 ev %s now %s" % (rt.hx("OHx"), T.P("iiQ", 0, -1, 0)))
+        for i in range(30):
+            lines.append("T0 ev %s now %s" % (rt.hx("OB."), (90000 + i).to_bytes(4, "little").hex()))
+        lines.append("T0 ev %s now" % rt.hx("OHe"))
+        lines.append("T0 flush")
+        lines.append("T0 free")
     lines.append("P fini")
     return lines
 
@@ -142,6 +155,8 @@ def run(case, ctx):
     try:
         dry = inject.run(ctx.shared["drv"], script, os.path.join(base, "dry"), tmpdir_mode=case["tmpdir"], env=env, nthreads=nth)
         if dry.rc != 0:
+            if case.get("reinit") and dry.err.strip():
+                return {"discard": True, "cls": ["reinit-refused-by-library"]}
             raise Violation("dry run failed: rc=%s %s" % (dry.rc, dry.err[-300:]))
         full = {}
         for t in range(nth):
